@@ -109,7 +109,7 @@ def _check_function(acc, fname, m0, src, r, renumber_ok=True, label=''):
             acc.v(f'exc:{type(e).__name__}@{fname}', f'{fname} raised {type(e).__name__}: {e} at {_where(e)} on valence-valid {src}',
                   {'smiles': src, 'function': fname, 'signature': sig}, f'{type(e).__name__}: {e}')
         else:
-            acc.stat('exception-on-invalid-input')
+            acc.stat(f'exception-on-valence-invalid-input(not claimed):{type(e).__name__}@{fname}')
         return None
     s_in, s_a = str(m0), str(a)
     uses_resonance = fname.startswith(('fix_resonance', 'standardize(', 'canonicalize('))  # standardize_charges does not call it
